@@ -177,6 +177,20 @@ def r10_5(rep, M, rid):
         else:
             rep.violation(rid, f"get_distances: `{norm(s)}`", f"the subtracted matrix is not r_i + r_j of get_radii (symmetric: {sym}, from get_radii: {from_radii})",
                           M.where(fq, s))
+    # the tables are double precision: no narrowing conversion anywhere in get_distances
+    narrow = []
+    for x in ast.walk(fn):
+        if isinstance(x, ast.keyword) and x.arg == "dtype" and norm(x.value).replace("numpy.", "np.").strip("'\"") not in ("float", "np.float64", "np.double", "float64"):
+            narrow.append(x.value)
+        if isinstance(x, ast.Call) and isinstance(x.func, ast.Attribute) and x.func.attr == "astype" and x.args \
+                and norm(x.args[0]).replace("numpy.", "np.").strip("'\"") not in ("float", "np.float64", "np.double", "float64"):
+            narrow.append(x)
+    if narrow:
+        rep.violation(rid, f"get_distances: `{norm(narrow[0])[:50]}`", "a distance table is converted to a narrower type: bonding decisions taken from this table (clustering, "
+                      "cluster shortcut) then differ from those taken from freshly computed double-precision distances for pairs within ~1e-7 A of a threshold",
+                      M.where(fq, narrow[0]))
+    else:
+        rep.ok(rid, "get_distances keeps every table in double precision (no dtype= / astype narrowing)")
     # the plain (non minimum-image) fallback may only be taken when *no* direction is periodic
     DISPQ = GEO + ".get_displacement_tensor"
     for t in [t for t in ast.walk(fn) if isinstance(t, ast.If) and "pbc" in norm(t.test) and t.orelse]:
@@ -238,7 +252,7 @@ def run(rep, ctx):
         cxxrules.infinite_cutoff(rep, "R10.4")
     with rep.guard("R10.5"):
         r10_5(rep, M, "R10.5")
-    rep.floor("R10.5", 7)
+    rep.floor("R10.5", 8)
     rep.floor("R10.1", 14)
     rep.floor("R10.2", 10)
     rep.floor("R10.3", 20)
